@@ -17,11 +17,11 @@ Definition tr_strategy (t : tr_spec) (idx : Z) : strategy :=
   match znth (ts_strategies t) (idx - 1) with Some s => s | None => hd no_traffic (ts_strategies t) end.
 Definition mk_ctx (t : tr_spec) (u : sub) : tctx :=
   {| tc_refs := ts_refs t; tc_zero_grace := ts_zero_grace t; tc_strategy := tr_strategy t (su_idx u);
-     tc_stable_rev := su_stable u; tc_canary_rev := su_pth u; tc_last_update := Some (su_elapsed u); tc_key := true; tc_gateway_fails := false |}.
+     tc_stable_rev := su_stable u; tc_canary_rev := su_pth u; tc_last_update := Some (su_elapsed u); tc_key := true; tc_gateway_fails := false; tc_only_traffic := false |}.
 (* finalising may run without a workload: the revision label key is then unknown *)
 Definition mk_ctx_w (t : tr_spec) (u : sub) (w : wl) : tctx :=
   {| tc_refs := ts_refs t; tc_zero_grace := ts_zero_grace t; tc_strategy := tr_strategy t (su_idx u);
-     tc_stable_rev := su_stable u; tc_canary_rev := su_pth u; tc_last_update := Some (su_elapsed u); tc_key := wl_exists w; tc_gateway_fails := false |}.
+     tc_stable_rev := su_stable u; tc_canary_rev := su_pth u; tc_last_update := Some (su_elapsed u); tc_key := wl_exists w; tc_gateway_fails := false; tc_only_traffic := false |}.
 
 Definition touch (u : sub) (r : tres) : sub :=
   if tr_touched r then upd_sub u (su_idx u) (su_next u) (su_state u) (su_fin u) false else u.
